@@ -29,6 +29,21 @@ def bytesStr (b : List Nat) : String := String.ofList (b.map (fun n => Char.ofNa
 def parseNet (s : String) : Tree.Net :=
   if s == "mainnet" then .mainnet else if s == "testnet" then .testnet else .regtest
 
+def showNet : Tree.Net → String
+  | .mainnet => "mainnet" | .testnet => "testnet" | .regtest => "regtest"
+
+/-- a network as spelled in a request (`Regtest` / `regtest` …), converted with the table that the
+    translator regenerates from `impl From<NetworkInRequest> for Network` -/
+def parseNetInRequest (s : String) : Tree.Net :=
+  let lower := s == s.toLower
+  let named : Btc.Gen.Network :=
+    if s.toLower == "mainnet" then .mainnet else if s.toLower == "testnet" then .testnet else .regtest
+  match Btc.Gen.networkInRequestTable.find? (fun r => r.1 == (named, lower)) with
+  | some (_, .mainnet) => .mainnet
+  | some (_, .testnet) => .testnet
+  | some (_, .regtest) => .regtest
+  | none => .regtest
+
 def parseOutPoint (s : String) : OutPoint :=
   match splitOnChar s '.' with
   | [t, v] => ⟨hexToNat t, v.toNat!⟩
